@@ -161,3 +161,26 @@ theorem utf8_nonzero (cp : Nat) (h0 : cp ≠ 0) (hlt : cp < 0x110000) : cstr (ut
       cstr_cons _ _ (nz _ (by omega)), e]
 
 end AslProofs.XdlRfc
+
+namespace AslProofs.XdlRfc
+open AslModel.Xdl
+
+theorem utf16_nil (n : Nat) : utf16toUtf8 [] n = [] := by simp [utf16toUtf8]
+
+/-- `utf16toUtf8` on one code unit (any 32-bit value) writes at most 3 bytes before the terminator -/
+theorem utf16_len1 (w : Int) : (utf16toUtf8 [w] 1).length ≤ 3 := by
+  simp only [utf16toUtf8, utf16_nil]
+  repeat' split
+  all_goals simp
+
+/-- `utf16toUtf8` on two code units (any values) writes at most 6 bytes before the terminator -/
+theorem utf16_len2 (a b : Int) : (utf16toUtf8 [a, b] 2).length ≤ 6 := by
+  have h1 := utf16_len1 b
+  generalize hx : utf16toUtf8 [b] 1 = x at h1
+  have e : ∀ (y : List Int → Nat → Bytes), (if 2 - 1 = 0 then ([] : Bytes) else y [b] (2 - 1)) = y [b] 1 := by
+    intro y; simp
+  simp only [utf16toUtf8, utf16_nil, Nat.reduceSub, Nat.succ_ne_zero, if_false, hx]
+  repeat' split
+  all_goals (simp; try omega)
+
+end AslProofs.XdlRfc
